@@ -1,6 +1,7 @@
 """C19 — what is drawn equals the data: points, error bars, curves, residuals, labels."""
 import collections
 import math
+import os
 
 import plotgen as G
 from common import fb, close, canon_hash
@@ -366,6 +367,27 @@ def _nontrivial(case):
     return len(kinds) >= 2 and removes
 
 
+def _observe_chunk(chunk):
+    import numpy as np
+    import qexpy as q
+    return [G.observe(q, np, c) for c in chunk]
+
+
+def _observe_parallel(cases, workers=None):
+    """thorough tier: the real plots are built and rendered in worker processes (each case
+    seeds numpy itself, so the result does not depend on the scheduling)"""
+    import concurrent.futures as cf
+    import multiprocessing as mp
+    workers = workers or max(1, min(16, (os.cpu_count() or 2)))
+    size = max(1, min(25, len(cases) // (workers * 2) or 1))
+    chunks = [cases[i:i + size] for i in range(0, len(cases), size)]
+    with cf.ProcessPoolExecutor(max_workers=workers, mp_context=mp.get_context("fork")) as ex:
+        out = []
+        for r in ex.map(_observe_chunk, chunks):
+            out += r
+    return out
+
+
 def run_cases(ctx, cases):
     import numpy as np
     import qexpy as q
@@ -377,7 +399,10 @@ def run_cases(ctx, cases):
         failures.append({"signature": "c19:fitters-source-changed", "kind": "disagreement",
                          "what": "FITTERS differs from the source the model's fit formulas mirror",
                          "impl": got, "expected": G._EXPECTED_FITTERS, "input": "qexpy/fitting/utils.py"})
-    obs = [G.observe(q, np, c) for c in cases]
+    if len(cases) > 150:
+        obs = _observe_parallel(cases)
+    else:
+        obs = [G.observe(q, np, c) for c in cases]
     idx = [i for i, o in enumerate(obs) if "api" in o]
     mod = ctx.model([G.model_line(cases[i], obs[i]) for i in idx]) if idx else []
     mods = dict(zip(idx, mod))
@@ -422,7 +447,7 @@ def run_cases(ctx, cases):
 
 
 def correspond(ctx):
-    cases = [G.gen_case(ctx.rng) for _ in range(ctx.n(45, 1200))]
+    cases = [G.gen_case(ctx.rng) for _ in range(ctx.n(60, 4000))]
     return run_cases(ctx, cases)
 
 
